@@ -60,7 +60,7 @@ Print Assumptions C18_quoted_name_content.
 From Bardolph Require Import Lang.Instr Lang.Loader Lang.Machine Lang.Sem Lang.CodeGen Lang.Simulation.
 Theorem C18_plain_snapshot_runs_as_its_source_says :
   forall (p : population) (w : world) (fuel : nat) (evs : list event),
-    plain_only p = true -> (seq_size (snapshot_ast p) <= fuel)%nat ->
+    plain_only p = true ->
     run_src fuel (snapshot_ast p) w = SFinished evs ->
     exists k, run_program k (compile (snapshot_ast p)) w = Finished evs.
 Proof. exact plain_snapshot_runs_as_its_source_says. Qed.
